@@ -10,7 +10,7 @@
        Sum_j |vs_j - w_j(f)| <= Bsum it * 2^-24,   |vs_j - w_j(f)| <= Bone it * 2^-24,
        Sum_j |w_j(f)| <= Lsum it,                  hence |Sum_j vs_j - 1| <= Bsum it * 2^-24,
 
-    with Bsum = 0, 9/8, 9/2, 8 and Bone = 0, 9/8, 7/2, 13/2 and Lsum = 1, 1+2^-20.., 21/16, 21/16 for it = 1..4.
+    with Bsum = 0, 9/8, 17/4, 29/4 and Bone = 0, 9/8, 25/8, 25/4 and Lsum = 1, 33/32, 21/16, 21/16 for it = 1..4.
     The constants are NOT tied to the association of the products in the source: the bound is computed
     by the verified calculator of Model/FExpr.v on whatever tree the translator delivers (256 cells of
     [0,1], [vm_compute]); the constants above leave room for every re-association of the present
@@ -152,8 +152,8 @@ Qed.
 (** ** the constants, and the check on the generated trees *)
 Definition KC : Z := 8.                       (* 2^8 cells *)
 Definition u32Q : Q := 1 # 16777216.
-Definition Bsum (it : Z) : Q := if (it =? 1)%Z then 0 else if (it =? 2)%Z then 9 # 8 else if (it =? 3)%Z then 9 # 2 else 8.
-Definition Bone (it : Z) : Q := if (it =? 1)%Z then 0 else if (it =? 2)%Z then 9 # 8 else if (it =? 3)%Z then 7 # 2 else 13 # 2.
+Definition Bsum (it : Z) : Q := if (it =? 1)%Z then 0 else if (it =? 2)%Z then 9 # 8 else if (it =? 3)%Z then 17 # 4 else 29 # 4.
+Definition Bone (it : Z) : Q := if (it =? 1)%Z then 0 else if (it =? 2)%Z then 9 # 8 else if (it =? 3)%Z then 25 # 8 else 25 # 4.
 Definition Lsum (it : Z) : Q := if (it =? 1)%Z then 1 else if (it =? 2)%Z then 33 # 32 else 21 # 16.
 
 Lemma u32Q_val : Q2R u32Q = u32.
